@@ -1,6 +1,7 @@
 package c13
 
 import (
+	"bytes"
 	"fmt"
 	"strconv"
 	"strings"
@@ -27,6 +28,8 @@ type vmResult struct {
 	gas   int64
 	err   string
 	pan   string // panic escaping VM.Run, if any
+	// scriptChanged: the loaded program bytes differ after the run
+	scriptChanged bool
 }
 
 func newVM(script []byte) *vm.VM {
@@ -49,7 +52,10 @@ func classOf(v *vm.VM) string {
 
 // runVM executes script on a fresh VM of the code under test.
 func runVM(script []byte) (res vmResult) {
-	v := newVM(script)
+	// the VM gets a private copy: executing a script must not change it
+	own := bytes.Clone(script)
+	defer func() { res.scriptChanged = !bytes.Equal(own, script) }()
+	v := newVM(own)
 	func() {
 		defer func() {
 			if r := recover(); r != nil {
@@ -168,7 +174,7 @@ type divergence struct {
 // locate re-runs the real VM and the specification in lockstep and returns the
 // first instruction after which they differ (state class or evaluation stack).
 func locate(script []byte) (d divergence) {
-	v := newVM(script)
+	v := newVM(bytes.Clone(script))
 	m := vmspec.New(script)
 	m.MaxSteps = 100000
 	prevOp, prevTag := "start", ""
